@@ -1,34 +1,118 @@
 /-
   C06 — loops and conditionals execute exactly the iterations the manual prescribes.
-  Property theorems only.
+
+  Property theorems only (helpers: Proofs/Lemmas/Vars.lean). Model: `forLoop` / `whileLoop`
+  (Model/Interp.lean), the transcription of FORStatement::doit / WHILEStatement::doit, for an
+  ARBITRARY body runner; Spec: `Spec.forRange` (Spec/Loops.lean).
 -/
-import BlocV.Model.Interp
+import BlocV.Proofs.Lemmas.Vars
+import BlocV.Spec.Loops
 
 namespace BlocV.C06
-open BlocV
-
-/-- The state in which a loop body runs: one unit of the work budget has been consumed. -/
-def ticked (s : St) : St := { s with budget := s.budget - 1 }
+open BlocV BlocV.Lemmas
 
 /-- `break` ends exactly the innermost loop: a `break` flow from the body makes the loop itself end
 normally, with the state the body left. -/
 theorem forLoop_break (v : String) (min max step : Int64) (k : Nat) (s s1 : St)
-    (body : EvalM Flow) (hbud : s.budget ≠ 0) (hb : body (ticked s) = (.ok .brk, s1)) :
+    (body : EvalM Flow) (hb : body s = (.ok .brk, s1)) :
     forLoop body v min max step (k + 1) s = (.ok .norm, s1) := by
-  have ht : tick s = (.ok (), ticked s) := by
-    unfold tick ticked
-    have : (s.budget == 0) = false := by simpa using hbud
-    simp [this]
-  simp [forLoop, bind, ht, hb, pure]
+  simp [forLoop, bind, hb, pure]
 
 /-- `return` leaves the loop and stays pending for the enclosing function or program. -/
 theorem forLoop_return (v : String) (min max step : Int64) (k : Nat) (s s1 : St)
-    (body : EvalM Flow) (hbud : s.budget ≠ 0) (hb : body (ticked s) = (.ok .ret, s1)) :
+    (body : EvalM Flow) (hb : body s = (.ok .ret, s1)) :
     forLoop body v min max step (k + 1) s = (.ok .ret, s1) := by
-  have ht : tick s = (.ok (), ticked s) := by
-    unfold tick ticked
-    have : (s.budget == 0) = false := by simpa using hbud
-    simp [this]
-  simp [forLoop, bind, ht, hb, pure]
+  simp [forLoop, bind, hb, pure]
+
+/-- An error in the body ends the loop with that error, from the state the body left. -/
+theorem forLoop_error (v : String) (min max step : Int64) (k : Nat) (s s1 : St) (c : Nat) (a : Bytes)
+    (body : EvalM Flow) (hb : body s = (.err c a, s1)) :
+    forLoop body v min max step (k + 1) s = (.err c a, s1) := by
+  simp [forLoop, bind, hb]
+
+/-- A body that always ends normally (or with `continue`) and never assigns the control variable. -/
+structure Quiet (body : EvalM Flow) (v : String) : Prop where
+  norm : ∀ s, (body s).1 = .ok .norm ∨ (body s).1 = .ok .cont
+  keeps : ∀ s, lookupVar (body s).2.vars v = lookupVar s.vars v
+
+def bodySt (body : EvalM Flow) (s : St) : St := (body s).2
+def setK (v : String) (s : St) (x : Int) : St := { s with vars := setVar s.vars v (.int (Int64.ofInt x)) }
+
+/-- The state after running the body once for every value of the list, the control variable being
+set to each value before the body runs (the first value is already in place). -/
+def runOver (body : EvalM Flow) (v : String) (s : St) : List Int → St
+  | [] => s
+  | _ :: rest => rest.foldl (fun st x => bodySt body (setK v st x)) (bodySt body s)
+
+theorem toInt_add_small (a b : Int64) (h1 : -2 ^ 63 ≤ a.toInt + b.toInt) (h2 : a.toInt + b.toInt < 2 ^ 63) :
+    (a + b).toInt = a.toInt + b.toInt := by
+  rw [Int64.toInt_add]
+  apply Int.bmod_eq_of_le <;> omega
+
+/-- **Ascending loop.** For a quiet body, the loop entered with the control variable at `cur ≤ max`
+and a positive step runs the body exactly for `cur, cur+step, … ≤ max` — computed on mathematical
+integers, so it never wraps around, also at INT64_MAX — and ends normally, whenever the fuel covers
+the number of values. -/
+theorem forLoop_visits_up (body : EvalM Flow) (v : String) (min max step : Int64)
+    (hq : Quiet body v) (hstep : 0 < step.toInt) :
+    ∀ (k : Nat) (cur : Int64) (s : St), lookupVar s.vars v = .int cur → cur.toInt ≤ max.toInt →
+      (Spec.upFrom k cur.toInt max.toInt step.toInt).length < k →
+      forLoop body v min max step k s =
+        (.ok .norm, runOver body v s (Spec.upFrom k cur.toInt max.toInt step.toInt)) := by
+  intro k
+  induction k with
+  | zero => intro cur s _ _ hl; simp [Spec.upFrom] at hl
+  | succ k ih =>
+    intro cur s hcur hle hl
+    have hgt : ¬ (cur.toInt > max.toInt) := by omega
+    simp only [Spec.upFrom, hgt, if_false] at hl ⊢
+    -- one run of the body
+    cases hbs : body s with
+    | mk r s1 =>
+    have hs1 : bodySt body s = s1 := by simp [bodySt, hbs]
+    have hr : r = .ok .norm ∨ r = .ok .cont := by have := hq.norm s; rw [hbs] at this; exact this
+    have hk : lookupVar s1.vars v = .int cur := by have := hq.keeps s; rw [hbs] at this; rw [this, hcur]
+    have hstep64 : (step > 0) := by
+      show (0 : Int64) < step
+      rw [Int64.lt_iff_toInt_lt]; exact hstep
+    have hstepneg : ¬ (step < 0) := by rw [Int64.lt_iff_toInt_lt]; show ¬ step.toInt < 0; omega
+    have hasInt : (Val.int cur).asInt = .ok cur := rfl
+    unfold forLoop
+    simp only [runOver]
+    rw [hs1]
+    rcases hr with hn | hn
+    all_goals
+      subst hn
+      simp only [bind, hbs, getSt, liftM, monadLift, MonadLift.monadLift, hk, hasInt, pure]
+      by_cases hstop : cur.toInt + step.toInt > max.toInt
+      · -- the next value leaves the range: the loop ends; the spec list is [cur]
+        have : Spec.upFrom k (cur.toInt + step.toInt) max.toInt step.toInt = [] := by
+          cases k <;> simp [Spec.upFrom, hstop]
+        simp [hstep64, hstop, this]
+      · have hnxt : (cur + step).toInt = cur.toInt + step.toInt := by
+          apply toInt_add_small
+          · have := Int64.le_toInt cur; omega
+          · have := Int64.toInt_lt max; omega
+        have hcond : ((decide (step > 0) && decide (cur.toInt + step.toInt > max.toInt)) ||
+            (decide (step < 0) && decide (cur.toInt + step.toInt < min.toInt))) = false := by
+          simp [hstop, hstepneg]
+        rw [hcond]
+        simp only [Bool.false_eq_true, ↓reduceIte, modifySt]
+        have hl' : (Spec.upFrom k (cur + step).toInt max.toInt step.toInt).length < k := by
+          rw [hnxt]; simp only [List.length_cons] at hl; omega
+        have hlook : lookupVar ({ s1 with vars := setVar s1.vars v (.int (cur + step)) } : St).vars v = .int (cur + step) :=
+          lookup_setVar _ _ _
+        have := ih (cur + step) _ hlook (by rw [hnxt]; omega) hl'
+        rw [this, hnxt]
+        -- the spec list continues with cur+step
+        cases hk2 : k with
+        | zero => simp [hk2, Spec.upFrom] at hl'
+        | succ k' =>
+          have hgt2 : ¬ (cur.toInt + step.toInt > max.toInt) := hstop
+          simp only [Spec.upFrom, hgt2, if_false, runOver, List.foldl_cons, setK, bodySt]
+          have e : Int64.ofInt (cur.toInt + step.toInt) = cur + step := by rw [← hnxt, Int64.ofInt_toInt]
+          rw [e]
+
+example : Spec.upFrom 5 1 10 4 = [1, 5, 9] := by decide
 
 end BlocV.C06
